@@ -18,6 +18,17 @@ type State struct {
 	M      *Model
 	Tuples []Tuple // stored ∪ contextual, de-duplicated by key (contextual wins)
 	byOR   map[string][]int
+	Extra  []string // further objects of the universe (e.g. the object of a userset subject)
+}
+
+// WithExtra adds objects to the universe of candidate objects (returns s).
+func (s *State) WithExtra(objs ...string) *State {
+	for _, o := range objs {
+		if o != "" && !IsWildcard(o) {
+			s.Extra = append(s.Extra, o)
+		}
+	}
+	return s
 }
 
 func NewState(m *Model, tuples []Tuple) *State {
@@ -47,6 +58,9 @@ func (s *State) Objects() []string {
 		if !IsWildcard(uo) {
 			set[uo] = struct{}{}
 		}
+	}
+	for _, o := range s.Extra {
+		set[o] = struct{}{}
 	}
 	out := make([]string, 0, len(set))
 	for o := range set {
@@ -592,10 +606,9 @@ func (s *State) ShadowedSibling(subj string, reqCtx map[string]any) bool {
 			if t.User != subj && t.User != wild {
 				continue
 			}
-			if !s.M.ValidForRead(t) {
-				continue
-			}
-			if s.M.EvalCond(t, reqCtx) == CondSat {
+			// usable = valid for the model and condition satisfied; anything else (an invalid leftover,
+			// an unsatisfied or unevaluable condition) is a tuple the engine must skip
+			if s.M.ValidForRead(t) && s.M.EvalCond(t, reqCtx) == CondSat {
 				sat = true
 			} else {
 				notSat = true
